@@ -55,14 +55,15 @@ def dt0_adaptive(
     f0, _ = tree.ravel_pytree(f0)
 
     scale = atol + np.abs(y0) * rtol
-    d0, d1 = linalg.vector_norm(y0 / scale), linalg.vector_norm(f0 / scale)
+    d0 = _vector_norm_no_overflow(y0 / scale)
+    d1 = _vector_norm_no_overflow(f0 / scale)
 
     dt0 = np.where((d0 < 1e-5) | (d1 < 1e-5), 1e-6, 0.01 * d0 / d1)
 
     y1 = y0 + dt0 * f0
     [f1] = vf.vector_field(jet_coords=(unravel(y1),), t=t0 + dt0)
     f1, _ = tree.ravel_pytree(f1)
-    d2 = linalg.vector_norm((f1 - f0) / scale) / dt0
+    d2 = _vector_norm_no_overflow((f1 - f0) / scale) / dt0
 
     dt1 = np.where(
         (d1 <= 1e-15) & (d2 <= 1e-15),
